@@ -183,9 +183,9 @@ def sysvLoop (t : SymTab) (data : Option Bytes) (name : Bytes) (nbucket nchain :
         match SymTab.rd32 "hash_lookup/chain" t.cfg.enc data (sysv_chain_off nbucket y).toNat with
         | .error f => .error f
         | .ok y' =>
-          match t.getSymbol (y'.setWidth 64) str a with
+          match t.getSymbol (sysv_sym_index_walk y') str a with
           | .error f => .error f
-          | .ok r => sysvLoop t data name nbucket nchain k y' (steps + 1) r.2.1 r.2.2
+          | .ok r => sysvLoop t data name nbucket nchain k y' (tq_sysv_step_incr steps) r.2.1 r.2.2
     else pure (str, a)
 
 /-- `hash_lookup` : header guard, table-fits guard (fixes/11), step bound (fixes/12; `nchain + 1`
@@ -193,7 +193,7 @@ def sysvLoop (t : SymTab) (data : Option Bytes) (name : Bytes) (nbucket nchain :
 def hashLookup (t : SymTab) (h : SecBuf) (name : Bytes) (a : Attrs) : M (Bool × Attrs) :=
   let data := secData h
   if tq_sysv_hdr_bad data.isNone h.size then pure (false, a) else
-  match SymTab.rd32 "hash_lookup/nbucket" t.cfg.enc data 0 with
+  match SymTab.rd32 "hash_lookup/nbucket" t.cfg.enc data sysv_nbucket_off.toNat with
   | .error f => .error f
   | .ok nbucket =>
     match SymTab.rd32 "hash_lookup/nchain" t.cfg.enc data sysv_nchain_off.toNat with
@@ -204,11 +204,11 @@ def hashLookup (t : SymTab) (h : SecBuf) (name : Bytes) (a : Attrs) : M (Bool ×
       match SymTab.rd32 "hash_lookup/bucket" t.cfg.enc data (sysv_bucket_off val nbucket).toNat with
       | .error f => .error f
       | .ok y =>
-        match t.getSymbol (y.setWidth 64) [] a with
+        match t.getSymbol (sysv_sym_index y) [] a with
         | .error f => .error f
         | .ok r =>
-          if !r.1 then pure (false, a) else
-          match sysvLoop t data name nbucket nchain (nchain.toNat + 1) y 0 r.2.1 r.2.2 with
+          if sysv_head_missing r.1 then pure (false, a) else
+          match sysvLoop t data name nbucket nchain (nchain.toNat + 1) y tq_sysv_step_init r.2.1 r.2.2 with
           | .error f => .error f
           | .ok st => pure (st.1 == name, st.2)
 
@@ -222,11 +222,13 @@ def gnuLoop (t : SymTab) (data : Option Bytes) (name : Bytes) (hash symoffset : 
            else pure (false, sn, a)) with
     | .error f => .error f
     | .ok r =>
-      if hm && r.1 && (name == r.2.1) then pure (true, r.2.2) else
+      if (if t.c32 then gnu32_name_match_gate ch hash r.1 (name == r.2.1)
+          else gnu64_name_match_gate ch hash r.1 (name == r.2.1)) then pure (true, r.2.2) else
       if (if t.c32 then gnu32_chain_end ch else gnu64_chain_end ch) then pure (false, r.2.2) else
-      let ci' := ci + 1
+      let ci' := if t.c32 then gnu32_chain_next ci else gnu64_chain_next ci
       if (if t.c32 then tq_gnu32_next_oob ci' nchains else tq_gnu64_next_oob ci' nchains) then pure (false, r.2.2) else
-      match SymTab.rd32 "gnu_hash_lookup/chain" t.cfg.enc data (chainsBase + ci'.toNat * 4) with
+      match SymTab.rd32 "gnu_hash_lookup/chain" t.cfg.enc data
+          (chainsBase + (if t.c32 then gnu32_chain_elem_off_walk ci' else gnu64_chain_elem_off_walk ci').toNat) with
       | .error f => .error f
       | .ok ch' => gnuLoop t data name hash symoffset chainsBase nchains k ci' ch' r.2.1 r.2.2
 
@@ -236,16 +238,16 @@ def gnuLookup (t : SymTab) (h : SecBuf) (name : Bytes) (a : Attrs) : M (Bool × 
   let data := secData h
   let e := t.cfg.enc
   if (if t.c32 then tq_gnu32_hdr_bad data.isNone h.size else tq_gnu64_hdr_bad data.isNone h.size) then pure (false, a) else
-  match SymTab.rd32 "gnu_hash_lookup/nbuckets" e data 0 with
+  match SymTab.rd32 "gnu_hash_lookup/nbuckets" e data (if t.c32 then gnu32_nbuckets_off else gnu64_nbuckets_off).toNat with
   | .error f => .error f
   | .ok nbuckets =>
-  match SymTab.rd32 "gnu_hash_lookup/symoffset" e data 4 with
+  match SymTab.rd32 "gnu_hash_lookup/symoffset" e data (if t.c32 then gnu32_symoffset_off else gnu64_symoffset_off).toNat with
   | .error f => .error f
   | .ok symoffset =>
-  match SymTab.rd32 "gnu_hash_lookup/bloom_size" e data 8 with
+  match SymTab.rd32 "gnu_hash_lookup/bloom_size" e data (if t.c32 then gnu32_bloom_size_off else gnu64_bloom_size_off).toNat with
   | .error f => .error f
   | .ok bloomSize =>
-  match SymTab.rd32 "gnu_hash_lookup/bloom_shift" e data 12 with
+  match SymTab.rd32 "gnu_hash_lookup/bloom_shift" e data (if t.c32 then gnu32_bloom_shift_off else gnu64_bloom_shift_off).toNat with
   | .error f => .error f
   | .ok bloomShift =>
     if (if t.c32 then tq_gnu32_fit_bad nbuckets bloomSize bloomShift h.size
@@ -254,26 +256,30 @@ def gnuLookup (t : SymTab) (h : SecBuf) (name : Bytes) (a : Attrs) : M (Bool × 
     let hash := elf_gnu_hash (SymTab.cName name)
     let bloomBase := (if t.c32 then gnu32_bloom_off else gnu64_bloom_off).toNat
     match (if t.c32 then
-             match SymTab.rd32 "gnu_hash_lookup/bloom" e data (bloomBase + (gnu32_bloom_index hash bloomSize).toNat * 4) with
+             match SymTab.rd32 "gnu_hash_lookup/bloom" e data
+                 (bloomBase + (gnu32_bloom_elem_off (gnu32_bloom_index hash bloomSize)).toNat) with
              | .error f => .error f
-             | .ok w => let bits := gnu32_bloom_bits hash bloomShift; pure ((w &&& bits) == bits)
+             | .ok w => let bits := gnu32_bloom_bits hash bloomShift; pure (!(gnu32_bloom_miss w bits))
            else
-             match SymTab.rd64 "gnu_hash_lookup/bloom" e data (bloomBase + (gnu64_bloom_index hash bloomSize).toNat * 8) with
+             match SymTab.rd64 "gnu_hash_lookup/bloom" e data
+                 (bloomBase + (gnu64_bloom_elem_off (gnu64_bloom_index hash bloomSize)).toNat) with
              | .error f => .error f
-             | .ok w => let bits := gnu64_bloom_bits hash bloomShift; pure ((w &&& bits) == bits) : M Bool) with
+             | .ok w => let bits := gnu64_bloom_bits hash bloomShift; pure (!(gnu64_bloom_miss w bits)) : M Bool) with
     | .error f => .error f
     | .ok pass =>
       if !pass then pure (false, a) else
       let bucket := if t.c32 then gnu32_bucket hash nbuckets else gnu64_bucket hash nbuckets
       let bucketsBase := bloomBase + (if t.c32 then gnu32_buckets_off bloomSize else gnu64_buckets_off bloomSize).toNat
       let chainsBase := bucketsBase + (if t.c32 then gnu32_chains_off nbuckets else gnu64_chains_off nbuckets).toNat
-      match SymTab.rd32 "gnu_hash_lookup/bucket" e data (bucketsBase + bucket.toNat * 4) with
+      match SymTab.rd32 "gnu_hash_lookup/bucket" e data
+          (bucketsBase + (if t.c32 then gnu32_bucket_elem_off bucket else gnu64_bucket_elem_off bucket).toNat) with
       | .error f => .error f
       | .ok bv =>
-        if BitVec.ule symoffset bv then
-          let ci := bv - symoffset
+        if (if t.c32 then gnu32_bucket_ok bv symoffset else gnu64_bucket_ok bv symoffset) then
+          let ci := if t.c32 then gnu32_chain_start bv symoffset else gnu64_chain_start bv symoffset
           if (if t.c32 then tq_gnu32_start_oob ci nchains else tq_gnu64_start_oob ci nchains) then pure (false, a) else
-          match SymTab.rd32 "gnu_hash_lookup/chain" e data (chainsBase + ci.toNat * 4) with
+          match SymTab.rd32 "gnu_hash_lookup/chain" e data
+              (chainsBase + (if t.c32 then gnu32_chain_elem_off ci else gnu64_chain_elem_off ci).toNat) with
           | .error f => .error f
           | .ok ch => gnuLoop t data name hash symoffset chainsBase nchains (nchains.toNat + 1) ci ch [] a
         else pure (false, a)
@@ -283,10 +289,10 @@ def hashPhase (t : SymTab) (name : Bytes) (a : Attrs) : M (Bool × Attrs) :=
   match t.hash with
   | none => pure (false, a)
   | some h =>
-    match (if h.stype == BitVec.ofNat 32 SHT_HASH then hashLookup t h name a else pure (false, a)) with
+    match (if tq_sym_hash_is_sysv h.stype then hashLookup t h name a else pure (false, a)) with
     | .error f => .error f
     | .ok r1 =>
-      if h.stype == BitVec.ofNat 32 SHT_GNU_HASH || h.stype == BitVec.ofNat 32 DT_GNU_HASH then
+      if tq_sym_hash_is_gnu h.stype then
         gnuLookup t h name r1.2
       else pure r1
 
@@ -295,10 +301,11 @@ def getByName (t : SymTab) (name : Bytes) (a : Attrs) : M (Bool × Attrs) :=
   match hashPhase t name a with
   | .error f => .error f
   | .ok r =>
-    if r.1 then pure r else
-    match t.symbolsNum with
-    | .error f => .error f
-    | .ok n => SymTab.linearGo t name n.toNat 0 r.2
+    if tq_sym_linear_needed r.1 then
+      match t.symbolsNum with
+      | .error f => .error f
+      | .ok n => SymTab.linearGo t name n.toNat 0 r.2
+    else pure r
 
 /-- `get_symbol(value, name, size, bind, type, section_index, other)` : unchanged by the fixes -/
 def getByValue (t : SymTab) (value : BitVec 64) (str : Bytes) (a : Attrs) : M (Bool × Bytes × Attrs) :=
@@ -462,19 +469,19 @@ def settleOpt (o : Obj) (i : Nat) : Obj × Option SecBuf :=
   | none => (o, none)
   | some (o', s) => (o', some s)
 
-def isHashTy (t : BitVec 32) : Bool :=
-  t == BitVec.ofNat 32 SHT_HASH || t == BitVec.ofNat 32 SHT_GNU_HASH || t == BitVec.ofNat 32 DT_GNU_HASH
-
-/-- the loop of `find_hash_section()` over `sections[j], j < nSecNo` -/
-def findHashGo (idx n : Nat) : List SecBuf → Nat → Nat
+/-- the loop of `find_hash_section()` over `sections[j], j < nSecNo` (`Elf_Half` counters; the loop
+    condition and the link / type test are the generated expressions) -/
+def findHashGo (idx n : BitVec 16) : List SecBuf → Nat → Nat
   | [], _ => 0
   | s :: rest, j =>
-    if j ≥ n then 0
-    else if s.link.toNat == idx % 65536 && isHashTy s.stype then j else findHashGo idx n rest (j + 1)
+    if !(tq_findhash_loop (BitVec.ofNat 16 j) n) then 0
+    else if tq_findhash_match s.link idx s.stype then (tq_findhash_index (BitVec.ofNat 16 j)).toNat
+    else findHashGo idx n rest (j + 1)
 
 /-- `find_hash_section()` : index of the first section linked to section `idx` that has a hash type
-    (`hash_section_index`; 0 also means "none") -/
-def findHash (o : Obj) (idx : Nat) : Nat := findHashGo idx (o.secs.length % 65536) o.secs 0
+    (`hash_section_index`; 0 also means "none"); `sections.size()` and `get_index()` are `Elf_Half` -/
+def findHash (o : Obj) (idx : Nat) : Nat :=
+  findHashGo (BitVec.ofNat 16 idx) (tq_findhash_nsec (BitVec.ofNat 16 o.secs.length)) o.secs 0
 
 /-- `symbol_section_accessor( elf, sections[i] )` : the symbol section, `sections[(Elf_Half)sh_link]` and
     the hash section, all made resident (a section that occurs twice is settled by its first visit) -/
@@ -482,9 +489,9 @@ def symTabFor (o : Obj) (i : Nat) : Option (Obj × SymTab) :=
   match settle o i with
   | none => none
   | some (o1, b) =>
-    let r2 := settleOpt o1 (b.link.setWidth 16).toNat
+    let r2 := settleOpt o1 (tq_sym_strtab_index b.link).toNat
     let hi := findHash r2.1 b.index
-    let r3 := if hi == 0 then (r2.1, none) else settleOpt r2.1 hi
+    let r3 := if tq_sym_has_hash (BitVec.ofNat 16 hi) then settleOpt r2.1 hi else (r2.1, none)
     some (r3.1, { cfg := ⟨o.cls, o.enc⟩, sym := b, str := r2.2, hash := r3.2 })
 
 /-- the scan over `sections[j], j < nSecNo` that collects the callback's relocation sections -/
